@@ -213,7 +213,7 @@ def emit_c(c, path, canary=None):
     def sub_loop(m):
         if m.group(1) == c.fn.mangled and int(m.group(2)) in c.loops:
             L = c.loops[int(m.group(2))]
-            s = "__CPROVER_assigns(%s)\n" % "; ".join(L.assigns)
+            s = "__CPROVER_assigns(%s)\n" % "; ".join(list(L.assigns) + ["sbv_steps"]) if L.assigns is not None else ""
             for inv in L.invariants:
                 s += "__CPROVER_loop_invariant(%s)\n" % inv
             if L.decreases:
@@ -463,9 +463,13 @@ def classify(r):
         r.status = "undecided"
         r.detail = "loop contract was not applied (no loop invariant obligations)"
         return
-    bad = [p for p in real if p["status"] != "SUCCESS"]
+    bad = [p for p in real if p["status"] == "FAILURE"]
     if bad:
-        r.status = "failed"
+        r.status = "failed"  # properties CBMC reports UNKNOWN are those behind a failed one (assert-then-assume cascade)
+        return
+    if any(p["status"] != "SUCCESS" for p in real):
+        r.status = "undecided"
+        r.detail = "properties without verdict: %s" % [p["name"] for p in real if p["status"] != "SUCCESS"][:5]
         return
     if not canary_seen or not canary_failed:
         r.status = "vacuous"
